@@ -176,10 +176,8 @@ impl Constants {
             expression_scalars
                 .into_iter()
                 .try_fold(expression.clone(), |expr, scalar| {
-                    self.scalar(scalar).map(|constant| {
-                        expr.replace_scalar(scalar, &constant.clone().into())
-                            .unwrap()
-                    })
+                    let constant = self.scalar(scalar)?;
+                    expr.replace_scalar(scalar, &constant.clone().into()).ok()
                 })?;
 
         eval(&expression).ok()
